@@ -101,7 +101,7 @@ def parse_template(text, base_dir='.'):
         if s.startswith('//@extract '):
             close()
             spec = s[len('//@extract '):]
-            segs = [x.strip() for x in spec.split('>>')]
+            segs = [x.strip() for x in spec.split(' >> ')]
             cur = dict(file=segs[0], path=segs[1:], obligs=[], ret=None, spec=[], loops={}, inserts=[],
                        external=False, keep_attrs=False, subs=[], rename=None, tline=ln)
             sec = None
